@@ -51,7 +51,7 @@ func SetTag(ctx *runtime.Task, funcExpr *ast.CallExpr) *errchain.PlError {
 	if len(funcExpr.Param) == 2 {
 		var errR *errchain.PlError
 		// 不限制值的数据类型，如果不是 string 类将在设置为 tag 时自动转换为 string
-		val, dtype, errR = runtime.RunStmt(ctx, funcExpr.Param[1])
+		val, dtype, errR = runArg(ctx, funcExpr.Param[1])
 		if errR != nil {
 			return errR
 		}
